@@ -2677,8 +2677,8 @@ impl<'a> Parser<'a> {
             });
         }
 
-        // TypeScript type assertion (as)
-        if self.match_token(&TokenKind::As) {
+        // TypeScript type assertion (as); assertions chain: `x as unknown as T`
+        while self.match_token(&TokenKind::As) {
             // Handle "as const" - const assertion (TypeScript 3.4+)
             // This is a compile-time feature; at runtime we just return the value unchanged
             if self.match_token(&TokenKind::Const) {
